@@ -657,6 +657,9 @@ class PooledJSONRPCServer(socketserver.ThreadingMixIn, SimpleJSONRPCServer):
         # Store the thread pool
         self.__request_pool = thread_pool
 
+        # Flag indicating if the serve_forever() loop is running
+        self.__serving = False
+
         # Prepare the server
         SimpleJSONRPCServer.__init__(
             self,
@@ -677,11 +680,24 @@ class PooledJSONRPCServer(socketserver.ThreadingMixIn, SimpleJSONRPCServer):
             self.process_request_thread, request, client_address
         )
 
+    def serve_forever(self, poll_interval=0.5):
+        """
+        Handle requests until shutdown() or server_close() is called
+        """
+        self.__serving = True
+        try:
+            SimpleJSONRPCServer.serve_forever(self, poll_interval)
+        finally:
+            self.__serving = False
+
     def server_close(self):
         """
         Clean up the server
         """
-        SimpleJSONRPCServer.shutdown(self)
+        if self.__serving:
+            # Stop the serve_forever() loop: shutdown() must only be called
+            # while it is running, as it would block forever otherwise
+            SimpleJSONRPCServer.shutdown(self)
         SimpleJSONRPCServer.server_close(self)
         self.__request_pool.stop()
 
